@@ -124,11 +124,34 @@ func (h *hist) relagWake() {
 		return
 	}
 	h.actions["relag-pending-loaded-before-reset"] += a.Hg.PendingLoadedEvents
+	// the application keeps submitting while the node catches up (submissions are accepted in every state): what the
+	// node accepted and has not yet put into an event must survive the fast-forward (C05)
+	if h.rng.Intn(4) > 0 {
+		h.submit(a)
+	}
+	poolBefore := fmt.Sprint(serials(a.Core.TransactionPool()))
+	ipoolBefore, sigsBefore := a.Core.InternalTransactionPoolLen(), a.Core.SelfBlockSignaturesLen()
 	a.PendingFF = true
 	for tries := 0; a.PendingFF && tries < 25; tries++ {
 		h.fastForward(a)
 	}
 	if a.WasReset {
 		h.actions["relag-fast-forwards"]++
+		h.actions["relag-pool-carried-over-reset"] += len(a.Core.TransactionPool())
+		if after := fmt.Sprint(serials(a.Core.TransactionPool())); after != poolBefore {
+			h.w.Violation("C05", "pool-changed-by-fast-forward", fmt.Sprintf("node=%d pool-before=%s pool-after=%s", a.ID, poolBefore, after))
+		}
+		if a.Core.InternalTransactionPoolLen() != ipoolBefore || a.Core.SelfBlockSignaturesLen() != sigsBefore {
+			h.w.Violation("C05", "pending-requests-or-signatures-changed-by-fast-forward", fmt.Sprintf("node=%d internal-pool %d -> %d self-signatures %d -> %d",
+				a.ID, ipoolBefore, a.Core.InternalTransactionPoolLen(), sigsBefore, a.Core.SelfBlockSignaturesLen()))
+		}
 	}
+}
+
+func serials(txs [][]byte) []int {
+	l := []int{}
+	for _, tx := range txs {
+		l = append(l, hx.TxSerialOf(tx))
+	}
+	return l
 }
